@@ -321,6 +321,8 @@ class binary_sequence():
         sizeof
     """
 
+    __array_ufunc__ = None  # `ndarray + binary_sequence` is a concatenation too: numpy must defer to __radd__
+
     def __init__(self, data: str | Iterable): 
         """ Initialize the binary sequence object.
 
